@@ -113,6 +113,7 @@ theorem packAllow_first {B : Type} (allow : B → Int → Bool × B) (b : B) (cb
 
 theorem rtx_first {B : Type} (s : St) (allow : B → Int → Bool × B) (awnd : BitVec 32) (pre : List Chunk) (c : Chunk) (post : List Chunk)
     (i : Int) (a : LoopAcc B) (hpre : ∀ x ∈ pre, x.retransmit = false) (hc : c.retransmit = true)
+    (hnab : isAbandoned a.aband s.allInflightMsgs c = false)
     (ha : a.bytesToSend = 0 ∧ a.bip = 0)
     (hwin : rtx_isProbe (i + (pre.length : Int)) s.rwnd (c.len : Int) = true ∨ rtx_exceedsWindow 0 (c.len : Int) awnd = false)
     (hfit : hdr + c.sizeInPacket s.cfg.useInterleaving ≤ (s.cfg.mtu.toNat : Int))
@@ -124,7 +125,7 @@ theorem rtx_first {B : Type} (s : St) (allow : B → Int → Bool × B) (awnd : 
     have hd : rtxDecide s allow awnd i a c =
         .take (allow a.b (c.sizeInPacket s.cfg.useInterleaving + hdr)).2 (hdr + c.sizeInPacket s.cfg.useInterleaving) := by
       unfold rtxDecide
-      simp only [hc, Bool.not_true, Bool.false_eq_true, if_false]
+      simp only [hc, Bool.not_true, Bool.false_eq_true, if_false, hnab]
       have hw : (!(rtx_isProbe i s.rwnd (c.len : Int)) && rtx_exceedsWindow a.bytesToSend (c.len : Int) awnd) = false := by
         rw [ha.1]
         rcases hwin with h | h
@@ -169,16 +170,18 @@ theorem scanSplit_seq (s : St) (hs : Seq s) : scanSplit s = ([], s.inflight) := 
       rw [h0] at o1
       simp [o1]
 
-/-- **`getDataPacketsToRetransmit` sends the lowest flagged chunk** when it is the earliest outstanding chunk and the peer
+/-- **`getDataPacketsToRetransmit` sends the lowest flagged chunk** (flagged chunks are never abandoned when they are flagged; one
+that was abandoned afterwards is skipped — hypothesis `hnab`) when it is the earliest outstanding chunk and the peer
 window is smaller than it (probe), or when it fits `min(cwnd, rwnd)` — provided it fits the MTU and the burst budget
 allows a first chunk -/
 theorem gatherRtx_lowest (s : St) (orc : Oracle) (hs : Seq s) (pre : List Chunk) (c : Chunk) (post : List Chunk)
     (hq : s.inflight = pre ++ c :: post) (hpre : ∀ x ∈ pre, x.retransmit = false) (hc : c.retransmit = true)
+    (hnab : s.abandoned c = false)
     (hwin : (pre = [] ∧ s.rwnd.toNat < c.len) ∨ c.len ≤ (min32 s.cwnd s.rwnd).toNat)
     (hfit : hdr + c.sizeInPacket s.cfg.useInterleaving ≤ (s.cfg.mtu.toNat : Int))
     (hal : (orc.allow orc.b (c.sizeInPacket s.cfg.useInterleaving + hdr)).1 = true) :
     ∃ tl, (gatherRtx s orc).2.1 = rtxUpd s c :: tl := by
-  have := rtx_first s orc.allow (rtx_awnd s.cwnd s.rwnd) pre c post 0 { b := orc.b, aband := s.abandonedMsgs } hpre hc ⟨rfl, rfl⟩
+  have := rtx_first s orc.allow (rtx_awnd s.cwnd s.rwnd) pre c post 0 { b := orc.b, aband := s.abandonedMsgs } hpre hc hnab ⟨rfl, rfl⟩
     (by
       rcases hwin with ⟨h1, h2⟩ | h
       · left
